@@ -28,7 +28,13 @@ func argBytes(s string) string {
 	return string(b)
 }
 
-func hx(s string) string { return hex.EncodeToString([]byte(s)) }
+// hx prints a string as hex; the empty string as "-" (every field of a result line is a non-empty token).
+func hx(s string) string {
+	if s == "" {
+		return "-"
+	}
+	return hex.EncodeToString([]byte(s))
+}
 
 func b01(b bool) string {
 	if b {
